@@ -19,7 +19,9 @@ and the PRF are inputs:
   certificate it received; ECDHE: the ServerECDHParams of the message);
 * `finishedOK` is the verdict of `readFinished` (ChangeCipherSpec arrives, the Finished
   record decrypts under the keys derived from the client's master secret, `verify_data`
-  equals the client's own `serverSum`).
+  equals the client's own `serverSum`).  On the resumption branch the verdict is derived:
+  the PRF is modelled symbolically by *which* secret (`Secret`) each side computes with — the
+  session's, or one of the public values a cache eviction can leave in a `SessionState`.
 
 What is *not* abstracted: which checks are made, in which order, under which guard, with which
 inputs, which are skipped by `InsecureSkipVerify`, which message is optional, and when
@@ -86,6 +88,14 @@ structure Params where
   resumeIdx       : List Nat
   fullSteps       : List String  -- error-checked calls of the full branch of handshake(), in order
   resumeSteps     : List String  -- … of the resumption branch
+  /-- `lruSessionCache.Put`, eviction path: `setZero(old.masterSecret)` … -/
+  evictWipes      : Bool
+  /-- … followed by `old.masterSecret = nil` -/
+  evictDrops      : Bool
+  /-- `loadSession` continues with a private deep copy (`session = session.clone()`) -/
+  loadClones      : Bool
+  /-- `processServerHello` refuses a session with `len(masterSecret) == 0` -/
+  secretGuard     : Bool
 
 inductive Outcome
   | completed
@@ -214,6 +224,22 @@ def fullHandshake (p : Params) (verify : K → Tbs R P → S → Bool) (skip : B
 
 /-! ### resumption -/
 
+/-- The master secret a party computes its Finished value and record keys with.  Only the
+first is a secret: a wiped buffer and a dropped buffer hold values everybody knows. -/
+inductive Secret
+  | session   -- the one agreed by the handshake that created the session (and recorded its certificates)
+  | zeros     -- all-zero bytes of the usual length: what `setZero` leaves behind
+  | empty     -- no bytes at all: a `nil` / zero-length slice
+  | other     -- anything else, e.g. the guess of a peer that does not know the session's secret
+  deriving DecidableEq, Repr
+
+/-- The PRF is HMAC-based (`pHash`): a key shorter than the hash block is padded with zero
+bytes, so an empty master secret and an all-zero one are the same key — they yield the same
+record keys and the same Finished values. -/
+def Secret.prfKey : Secret → Secret
+  | .empty => .zeros
+  | k => k
+
 /-- what the client holds about a cached session and what the resumed flow shows -/
 structure SessView where
   /-- certificates recorded in the session -/
@@ -225,8 +251,14 @@ structure SessView where
   serverResumes : Bool
   versOK     : Bool
   suiteOK    : Bool
-  masterPresent : Bool
-  finishedOK : Bool
+  /-- the cache evicted the entry (other connections stored their sessions) after
+  `SessionCache.Get` handed it to `loadSession` and before `loadSession` took its copy -/
+  evictedInWindow  : Bool
+  /-- … after `loadSession` returned and before `processServerHello` copies the secret -/
+  evictedAfterLoad : Bool
+  /-- the secret the peer's ChangeCipherSpec / Finished were computed with (`none`: the peer
+  sent no Finished, or a damaged one) -/
+  peerFin    : Option Secret
   deriving DecidableEq, Repr
 
 def sessChains (idx : List Nat) (s : SessView) : Bool :=
@@ -236,16 +268,35 @@ def sessChains (idx : List Nat) (s : SessView) : Bool :=
 def offers (p : Params) (skip : Bool) (s : SessView) : Bool :=
   !p.resumeReverify || skip || (decide (p.resumeMinCerts ≤ s.nCerts) && sessChains p.resumeIdx s)
 
+/-- what the eviction path of `lruSessionCache.Put` leaves in `masterSecret` of the evicted
+`SessionState` (the object a concurrent `loadSession` may still point to) -/
+def evictedSecret (p : Params) : Secret :=
+  if p.evictDrops then .empty else if p.evictWipes then .zeros else .session
+
+/-- is the `SessionState` the handshake reads its secret from the one the cache evicted?  Inside
+the window of `loadSession` always; afterwards only when `loadSession` did not take a copy. -/
+def readsEvicted (p : Params) (s : SessView) : Bool :=
+  s.evictedInWindow || (!p.loadClones && s.evictedAfterLoad)
+
+/-- `hs.session.masterSecret` as `processServerHello` finds it -/
+def heldSecret (p : Params) (s : SessView) : Secret :=
+  if readsEvicted p s then evictedSecret p else .session
+
 /-- `processServerHello` after `serverResumedSession()` -/
-def processResumed (s : SessView) : Step :=
+def processResumed (p : Params) (s : SessView) : Step :=
   if !s.versOK then failWith "resume-version" "handshake_failure"
   else if !s.suiteOK then failWith "resume-suite" "handshake_failure"
-  else if !s.masterPresent then failWith "resume-master" "internal_error"
+  else if p.secretGuard && heldSecret p s == .empty then failWith "resume-master" "internal_error"
   else .ok ()
+
+/-- `readFinished` on the resumption branch: the peer's records open and its `verify_data`
+match exactly when the peer computed them with (the same PRF key as) the secret the client holds -/
+def resumeFinishedOK (p : Params) (s : SessView) : Bool :=
+  s.peerFin.map Secret.prfKey == some (heldSecret p s).prfKey
 
 /-- `handshake()` on the resumption branch -/
 def resumedHandshake (p : Params) (s : SessView) : Result :=
-  finish (firstError [processResumed s, runSteps (.ok ()) s.finishedOK p.resumeSteps])
+  finish (firstError [processResumed p s, runSteps (.ok ()) (resumeFinishedOK p s) p.resumeSteps])
 
 /-- one client connection: an optional cached session and the full-handshake view used when
 the session is not offered or the server does not resume it -/
@@ -269,5 +320,13 @@ def connect (p : Params) (verify : K → Tbs R P → S → Bool) (skip : Bool) (
     if takesResume p skip s then { result := resumedHandshake p s, resumed := true }
     else { result := fullHandshake p verify skip c.full, resumed := false }
   | none => { result := fullHandshake p verify skip c.full, resumed := false }
+
+/-- `ConnectionState().DidResume`: `handshake()` stores `isResume` as soon as
+`processServerHello` has accepted the resumption — before Finished is read, so the flag may
+be set on a connection that then fails (the property does not constrain it there) -/
+def didResume (p : Params) (skip : Bool) (c : ConnView K R P S) : Bool :=
+  match c.session with
+  | some s => takesResume p skip s && (match processResumed p s with | .ok () => true | .error _ => false)
+  | none => false
 
 end Gotlcp.Model.ClientAuthn
